@@ -11,6 +11,11 @@
     pevalsubs <i> <poly q> <pdiagram>    -> ok <n> poly*      (eval d) with x_i := q entrywise
     pgrad <checksFS> <i> <pdiagram>      -> ok <terms> <n> poly*   eval of d.grad(x_i), number of terms
     pjac <checksFS> <k> <i>* <pdiagram>  -> ok <n> poly*      eval of d.jacobian([x_i…])
+  xlayer    := <dims left> <dims right> 0 <dims box.dom> <dims box.cod> <dagger 0|1> <n> poly*      plain box
+             | <dims left> <dims right> 1 <dims dom> <dims cod> <n> <coeff>* <nlayers> layer*    bubble: func = Σ coeff_k x^k
+  xdiagram  := <dims dom> <nlayers> xlayer*
+    xeval <xdiagram>                     -> ok <n> poly*      evaluation of a diagram with bubbles
+    xgrad <checksFS> <i> <xdiagram>      -> ok <terms> <n> poly*   eval of d.grad(x_i) (Bubble.grad = chain rule)
     csubs <fixC> <fixD> <fixH> <cls> <hit> <hasData> <hasSyms> <kind> <nin> <nout> <dagger> <mixed 0|1|2>
                                          -> ok <kind> <nin> <nout> <dagger> <mixed> | err exc:AttributeError
 -/
@@ -49,6 +54,34 @@ def pdiagram : P PolyDiagram := do
   let dom ← dims
   let layers ← many layer
   pure { dom := dom, layers := layers }
+
+def xlayer : P (XLayer Poly) := do
+  let left ← dims
+  let right ← dims
+  let isBubble ← bool
+  if isBubble then
+    let bdom ← dims
+    let bcod ← dims
+    let func ← many int
+    let inside ← many layer
+    pure { left := left, right := right, box := .bubble bdom bcod func inside }
+  else
+    let bdom ← dims
+    let bcod ← dims
+    let dg ← bool
+    let data ← many poly
+    pure { left := left, right := right,
+           box := .plain { dom := bdom, cod := bcod, dagger := dg, data := data } }
+
+def xcod (dom : List Nat) (ls : List (XLayer Poly)) : List Nat :=
+  match ls.getLast? with
+  | none => dom
+  | some l => l.left ++ l.box.cod ++ l.right
+
+def xdiagram : P (List Nat × List (XLayer Poly)) := do
+  let dom ← dims
+  let layers ← many xlayer
+  pure (dom, layers)
 
 def pad (m : Mono) : List Nat := m ++ List.replicate (NV - m.length) 0
 
@@ -109,6 +142,12 @@ def handle (cmd : String) (rest : List String) : Option String :=
       fun (f, vs, d) =>
         let grads := vs.map (fun v => evalSum (d.grad f v))
         "ok " ++ pMat (jacobianMat (prod d.cod) grads) (prod d.dom) (vs.length * prod d.cod)
+  | "xeval" => some <| run xdiagram rest fun (dom, ls) =>
+      "ok " ++ pMat (xevalLayers Poly.const ls) (prod dom) (prod (xcod dom ls))
+  | "xgrad" => some <| run (do let f ← bool; let i ← nat; let d ← xdiagram; pure (f, i, d)) rest
+      fun (f, i, (dom, ls)) =>
+        let g := polyXGrad f i ls
+        s!"ok {g.length} " ++ pMat (xevalSum Poly.const g) (prod dom) (prod (xcod dom ls))
   | "csubs" => some <| run (do
         let c ← bool; let dg ← bool; let h ← bool
         let k ← cls; let hit ← bool; let hasData ← bool; let hasSyms ← bool; let a ← attr
